@@ -173,6 +173,10 @@ def single_args(spec, c, container="nd"):
         out["solution"] = out["solution"].tolist()
         out["measures"] = out["measures"].tolist()
         out["objective"] = float(out["objective"])
+    elif container == "f64":
+        out["solution"] = out["solution"].astype(np.float64)
+        out["measures"] = out["measures"].astype(np.float64)
+        out["objective"] = np.float64(out["objective"])
     return out
 
 
